@@ -583,20 +583,36 @@ def main():
     lib, bfile, out, workdir, seed, cfgs = sys.argv[1:7]
     botan = sys.argv[7] if len(sys.argv) > 7 else None
     os.makedirs(workdir, exist_ok=True)
+    per = []         # per configuration: list of executions (lists of lines)
+    died = None
+    for cfg in cfgs.split(","):
+        l = botan if cfg.startswith("botan") else lib
+        o = os.path.join(workdir, cfg + ".ndjson")
+        r = subprocess.run([sys.executable, "-m", "vf.drv_val", "--one", l, bfile, o, os.path.join(workdir, cfg), seed, cfg],
+                           cwd=ROOTDIR, env=dict(os.environ, PYTHONPATH=ROOTDIR), stderr=subprocess.PIPE)
+        ex = []
+        if os.path.exists(o):
+            for line in open(o):
+                if line.startswith('{"e":"Reset"'):
+                    ex.append([])
+                if ex:
+                    ex[-1].append(line if line.endswith("\n") else line + "\n")
+        per.append(ex)
+        if r.returncode == 3:
+            sys.stderr.write(r.stderr.decode()[-1500:])
+            sys.exit(3)
+        if r.returncode != 0:
+            died = cfg
+            break
+    # the executions of one behaviour under all configurations follow each other (the trace specification compares them
+    # and forgets the bytes of a behaviour when the next one begins)
     with open(out, "w") as f:
-        for cfg in cfgs.split(","):
-            l = botan if cfg.startswith("botan") else lib
-            o = os.path.join(workdir, cfg + ".ndjson")
-            r = subprocess.run([sys.executable, "-m", "vf.drv_val", "--one", l, bfile, o, os.path.join(workdir, cfg), seed, cfg],
-                               cwd=ROOTDIR, env=dict(os.environ, PYTHONPATH=ROOTDIR), stderr=subprocess.PIPE)
-            if os.path.exists(o):
-                f.write(open(o).read())
-            if r.returncode == 3:
-                sys.stderr.write(r.stderr.decode()[-1500:])
-                sys.exit(3)
-            if r.returncode != 0:
-                f.write('{"e":"ProcessDied","cfg":"%s"}\n' % cfg)
-                break
+        for b in range(max(len(ex) for ex in per) if per else 0):
+            for ex in per:
+                if b < len(ex):
+                    f.writelines(ex[b])
+        if died:
+            f.write('{"e":"ProcessDied","cfg":"%s"}\n' % died)
 
 
 if __name__ == "__main__":
